@@ -54,7 +54,7 @@ class Builder:
 
     def __init__(self, prog: Program | None, func: Func | None, env=None, facts=None, *,
                  positive=DEFAULT_POSITIVE, erase_casts=True, inline_depth=3, self_prefix="self",
-                 inline_filter=None, erase_layout=False, erase_validation=False, keep_raises=False, track_locals=False, track_effects=False, summarise_loops=False):
+                 inline_filter=None, erase_layout=False, erase_validation=False, keep_raises=False, track_locals=False, track_effects=False, summarise_loops=False, erase_persistence=False):
         self.prog, self.func = prog, func
         self.env = dict(env or {})
         self.facts = facts or Facts()
@@ -65,6 +65,7 @@ class Builder:
         self.erase_layout = erase_layout
         self.erase_validation = erase_validation   # argtest.<check>(name, value, ...) -> value (validators return their value)
         self.keep_raises = keep_raises     # a `raise X(...)` is the value raise(X) (a leaf of the decision tree), not bottom
+        self.erase_persistence = erase_persistence  # whether a value is stored as a persisted extra / buffer or as a plain attribute is not compared
         self.summarise_loops = summarise_loops  # a loop is the term loop(iterable, what one iteration computes / stores / calls) instead of an opaque region
         self.track_effects = track_effects  # calls evaluated as statements are appended to the pseudo-store "!effects" (ordered, path-sensitive)
         self.track_locals = track_locals   # item stores / deletes on local containers are recorded as stores "<name>[]"
@@ -76,7 +77,7 @@ class Builder:
                     positive=self.positive, erase_casts=self.erase_casts, inline_depth=self.inline_depth,
                     inline_filter=self.inline_filter, erase_layout=self.erase_layout, erase_validation=self.erase_validation,
                     keep_raises=self.keep_raises, track_locals=self.track_locals, track_effects=self.track_effects,
-                    summarise_loops=self.summarise_loops)
+                    summarise_loops=self.summarise_loops, erase_persistence=self.erase_persistence)
         b.stores = dict(self.stores)
         return b
 
@@ -575,6 +576,17 @@ class Builder:
         elif isinstance(st, ast.Expr):
             if isinstance(st.value, ast.Call):
                 c = st.value
+                if self.erase_persistence and isinstance(c.func, ast.Attribute) and len(c.args) >= 2:
+                    # owner.register_extra(name, v) / setattr(owner, name, v): the same store as far as everything but checkpointing goes
+                    if c.func.attr == "register_extra":
+                        c = ast.copy_location(ast.Call(func=ast.Name(id="setattr", ctx=ast.Load()), args=[c.func.value] + list(c.args[:2]), keywords=[]), c)
+                        st = ast.copy_location(ast.Expr(value=c), st)
+                        if isinstance(c.args[1], ast.Constant) and isinstance(c.args[1].value, str) and dotted(c.args[0]) is not None:
+                            tgt = ast.copy_location(ast.Attribute(value=c.args[0], attr=c.args[1].value, ctx=ast.Store()), st)
+                            return self.stmt(ast.copy_location(ast.Assign(targets=[tgt], value=c.args[2], lineno=st.lineno), st))
+                    elif c.func.attr == "register_buffer":
+                        c = ast.copy_location(ast.Call(func=c.func, args=list(c.args[:2]), keywords=[k for k in c.keywords if k.arg != "persistent"]), c)
+                        st = ast.copy_location(ast.Expr(value=c), st)
                 # in-place method on a local: value becomes opaque
                 if isinstance(c.func, ast.Attribute) and c.func.attr.endswith("_") and not c.func.attr.endswith("__"):
                     d = dotted(c.func.value)
